@@ -113,9 +113,16 @@ def run(ctx: Ctx) -> None:
     # ---------------------------------------------------------------- R14.1
     ctx.rule("R14.1", "collectors: every token obtained is placed exactly once (no drop, no duplicate)", minimum=7)
     total_steps = 0
+    # a token whose text ends with a newline is a layout token: decided on the lexer model
+    from ..lexmodel import LexModel
+    lm = LexModel(ctx.repo)
+    nl_enders = {r.tokname for r in lm.rules if r.delivers and r.auto(lm.reflags).can_end_with("\n")}
+    layout = set(LAYOUT)
+    if nl_enders <= lm.discard:
+        layout.add("<ends-with-newline>")
     for fname in linear.COLLECTORS:
         pm.fn(fname)
-        fs, steps = linear.analyse(pm, fname, LAYOUT)
+        fs, steps = linear.analyse(pm, fname, layout)
         total_steps += steps
         if not fs:
             ctx.ob("R14.1", f"parser:CxxParser.{fname}|all tokens placed once", True, node=pm.fn(fname), mod=mod, detail={"path_states": steps})
